@@ -32,6 +32,9 @@ pub struct EbrMirror {
     pub pending_soft: Vec<(String, String)>,
 }
 
+/// the clock is a 63-bit counter (bit 0 of the word is the pin flag) and wraps
+const CLOCK_MASK: u64 = u64::MAX >> 1;
+
 fn peek_global(addr: usize) -> u64 {
     (crate::shadow::read_word(addr) >> 1) as u64
 }
@@ -49,10 +52,10 @@ impl EbrMirror {
         }
         let g = peek_global(self.global_addr);
         if g != self.last_global {
-            if g != self.last_global.wrapping_add(1) {
+            if g != self.last_global.wrapping_add(1) & CLOCK_MASK {
                 let det = format!("global epoch moved from {} to {} in one step", self.last_global, g);
                 // not fatal for the run: other oracles (C13) may still have something to say
-                crate::shadow::shadow().soft("C14", if g < self.last_global { "clock-decreased" } else { "clock-jumped" }, det);
+                crate::shadow::shadow().soft("C14", if g.wrapping_sub(self.last_global) & CLOCK_MASK > CLOCK_MASK / 2 { "clock-decreased" } else { "clock-jumped" }, det);
             }
             self.last_global = g;
         }
@@ -67,7 +70,7 @@ impl EbrMirror {
             }
             let e = (p.epoch_word >> 1) as u64;
             self.n_checks += 1;
-            let lag = g.wrapping_sub(e);
+            let lag = g.wrapping_sub(e) & CLOCK_MASK;
             if lag == 1 && m.max_lag_seen == 0 {
                 self.n_pinned_across_advance += 1;
             }
